@@ -21,7 +21,9 @@ static void gen_common(Plan* p, Rng* r, int tier, long idx, int which) {
     sess_gen_cparams(p, r, (mt ? GP_FORCE_MT : GP_NOMT) | (which == W_C05 && rng_coin(r, 2, 3) ? GP_SMALLWIN : 0));
     if (mt) { int lvl = sess_get_cparam(p, "compressionLevel", 3); if (lvl > 5) plan_set(p, "c.compressionLevel", lvl % 5 + 1); if (sess_get_cparam(p, "strategy", 0) > 5) plan_set(p, "c.strategy", 2); }
     plan_set(p, "family", mt ? 0 : (int64_t)rng_below(r, 3));   /* 0 compressStream2, 1 legacy stream API, 2 stable buffers */
-    if (rng_coin(r, 1, 4)) { plan_set(p, "dict_kind", rng_range(r, 1, 2)); plan_set(p, "dict_size", (int64_t)(8 + rng_size(r, 100 << 10))); plan_set(p, "dict_seed", (int64_t)(rng_u64(r) >> 2)); plan_set(p, "dict_mode", rng_range(r, 1, 2)); }
+    if (rng_coin(r, 1, 4)) { plan_set(p, "dict_kind", rng_range(r, 1, 2)); plan_set(p, "dict_size", (int64_t)(8 + rng_size(r, 100 << 10))); plan_set(p, "dict_seed", (int64_t)(rng_u64(r) >> 2)); plan_set(p, "dict_mode", rng_range(r, 1, 2));
+        /* Dictionary_ID at the edges of its 1 / 2 / 4-byte encodings */
+        if (rng_coin(r, 1, 2)) { static const int64_t ids[] = { 1, 255, 256, 257, 65535, 65536, 65537, 0xFFFFFF, 0x1000000, 0x7FFFFFFF, 0xFFFFFFFFLL }; plan_set(p, "dict_id", ids[rng_below(r, sizeof ids / sizeof ids[0])]); } }
     if (rng_coin(r, 1, 4)) plan_set(p, "skippable", 1);
     sess_gen_chist(p, r, (size_t)plan_get(p, "in_size", 0), 1);
     if (which == W_C10) { int i, n = (int)rng_range(r, 2, 10); for (i = 0; i < n; i++) plan_add(p, "cs", 4, (int64_t)rng_chunk(r, (size_t)plan_get(p, "in_size", 0), 1 << 17), (int64_t)(1 + rng_chunk(r, 1 << 18, 1 << 17)), (int64_t)1, (int64_t)rng_range(r, 1, 6)); }
@@ -34,6 +36,8 @@ static void gen_common(Plan* p, Rng* r, int tier, long idx, int which) {
     plan_set(p, "prelude", (idx % 4) == 2 ? 1 + (int64_t)(rng_u64(r) >> 40) : 0);
     /* one run in six: entropy-only noise (random or mixed content over a 16-100 symbol alphabet), long enough for literal sections beyond 64 KiB */
     if ((idx % 6) == 5) { plan_set(p, "in_alpha", rng_range(r, 16, 100)); plan_set(p, "in_kind", rng_coin(r, 1, 2) ? GEN_RANDOM : GEN_MIXED); if (plan_get(p, "in_size", 0) < (200 << 10) && !mt) plan_set(p, "in_size", rng_range(r, 200 << 10, 700 << 10)); if (rng_coin(r, 1, 2)) plan_set(p, "c.windowLog", rng_range(r, 17, 20)); }
+    /* one run in twelve: the input ends, inside a block that is not the first, with a one-byte run of 32*j bytes plus 1-31 bytes of another value (the shapes an RLE-block test must tell apart) */
+    if ((idx % 12) == 4) { int64_t const t = rng_range(r, 1, 31), j = rng_range(r, 1, 100), k = mt ? rng_range(r, 8, 20) : rng_range(r, 1, 3); plan_set(p, "in_runtail", t); plan_set(p, "in_runlen", 32 * j); plan_set(p, "in_size", 131072 * k + 32 * j + t); }
     sim_sched_plan_defaults(p, r, 0);
     plan_set(p, "sched_step_cap", tier ? 80000000 : 6000000);   /* thorough inputs are 4-8x larger: the budget of scheduling points follows */
 }
@@ -241,7 +245,10 @@ static void exec_common(const Plan* p, int which) {
     if (s.ncalls >= 3) sim_mark_nontrivial();
     /* oracles */
     sess_check_lib_roundtrip(s.wire, s.wire_size, s.in, s.in_size, s.dict, s.dict_size, s.dict_raw, s.magicless);
-    if (which & W_C05) sess_check_conformance(s.wire, s.wire_size, s.in, s.in_size, s.dict, s.dict_size, s.dict_raw, s.magicless, 0, 0, p);
+    if (which & W_C05) { /* header truth: a structured dictionary's ID (bytes 4-7) unless dictIDFlag is off; raw content and prefixes have none */
+        uint32_t want = 0; int known = 0;
+        if (s.dict && !s.dict_raw && s.dict_size >= 8 && s.dict[0] == 0x37 && s.dict[1] == 0xA4 && s.dict[2] == 0x30 && s.dict[3] == 0xEC && sess_get_cparam(p, "dictIDFlag", 1) != 0) { want = (uint32_t)s.dict[4] | ((uint32_t)s.dict[5] << 8) | ((uint32_t)s.dict[6] << 16) | ((uint32_t)s.dict[7] << 24); known = 2; }
+        sess_check_conformance(s.wire, s.wire_size, s.in, s.in_size, s.dict, s.dict_size, s.dict_raw, s.magicless, want, known, p); }
     if (which & W_C02) {
         ZSTD_DCtx* d = new_dctx(&s);
         sess_run_dhist(p, d, s.wire, s.wire_size, s.magicless, 1, &dr);
